@@ -206,7 +206,21 @@ def check(rep, c, cfg):
         if arm is not None:
             pv = hirq.pat_variants(arm.node["arms"][arm.extra]["pat"])
             armname = "|".join(v.split("::")[-1] for v in pv) if pv else "_"
-        conds = [e for e in after if e.kind == "cond" and any(callee(x) in wrappers for x in walk(e.node))]
+        lets_st = hirq.lets(st["body"])
+
+        def tests_reached(node, d=0):
+            """+1 if the condition is true exactly when the limit is reached, -1 if it is its negation, 0 otherwise."""
+            n0 = peel(node)
+            if d > 4:
+                return 0
+            if kind(n0) == "Unary" and n0["op"] == "!":
+                return -tests_reached(n0["e"], d + 1)
+            if kind(n0) in ("MethodCall", "Call") and callee(n0) in wrappers:
+                return 1
+            if kind(n0) == "Path" and n0.get("res") == "local" and n0["id"] in lets_st:
+                return tests_reached(lets_st[n0["id"]][0], d + 1)   # `let reached = state.reached_call_limit();`
+            return 0
+        conds = [e for e in after if e.kind == "cond" and tests_reached(e.node) != 0]
         key = "arm:" + armname
         arms_seen.setdefault(key, 0)
         arms_seen[key] += 1
@@ -217,7 +231,7 @@ def check(rep, c, cfg):
                          "refusal absorbed by repeat/optional/negative lookahead yields a silently different "
                          "Ok result" % armname)
             continue
-        if conds[0].extra is True:
+        if bool(conds[0].extra) == (tests_reached(conds[0].node) > 0):
             oks = [e for e in after if e.kind == "call" and callee(e.node) == "core::result::Result::Ok"]
             if oks:
                 r2.violation(key + ":ok-when-reached", where(oks[0].node),
